@@ -18,8 +18,12 @@
 (*   [op |-> "CREATE2", addr, value, init (code id), runtime (code id)]    *)
 (*   [op |-> "SELFDESTRUCT", to]  [op |-> "REVERT"]  [op |-> "INVALID"]  [op |-> "STOP"]  *)
 (*   [op |-> "NOP"]  (reads: SLOAD, BALANCE, EXTCODE* - no state effect)    *)
-(*   [op |-> "CPC", ...]  calls into custom precompiles are given meaning   *)
-(*   by the operator CpcCall supplied by the extending module.             *)
+(*   [op |-> "CPC", kind, to (the ERC-20 precompile of the EVM            *)
+(*    denomination), method "transfer" | "burn", args <<recipient, amount>> *)
+(*    / <<amount>>]: a call into a stateful custom precompile.  The         *)
+(*    precompile moves or destroys BANK coins of the immediate caller       *)
+(*    through the current context - not through the StateDB's balance       *)
+(*    methods, so nothing is "touched" - and emits one Transfer log.        *)
 (***************************************************************************)
 EXTENDS World
 
@@ -140,6 +144,28 @@ ExecOps(w, fc, ops, i, outs, j) ==
                      IN IF ~c2.cons THEN Res(w, "ok", j, FALSE)
                         ELSE IF c2.st = "panic" THEN Res(c2.w, "panic", j, TRUE)
                         ELSE ExecOps(c2.w, fc, ops, i + 1, outs, j + 1)
+      [] o.op = "CPC" ->
+           (* generated in non-static contexts only *)
+           IF fc.ro \/ j > Len(outs) THEN Res(w, "ok", j, FALSE)
+           ELSE
+             LET out == outs[j]
+                 pc == o.to
+                 caller == fc.self           \* the frame that executes the call instruction, whatever the call kind
+                 amt == IF o.method = "burn" THEN o.args[1] ELSE o.args[2]
+                 (* pre-frame effects of evm.Call on the precompile's address (value 0): the account is made and both ends are touched *)
+                 w1 == IF SdbExist(w, pc) THEN w ELSE CreateAccount(w, pc, fc.now)
+                 w2 == IF o.kind = "CALL" THEN Touch(Touch(w1, fc.self), pc) ELSE w1
+                 enough == Bal(w2, caller) >= amt
+                 moved == IF o.method = "burn"
+                            THEN [SetBal(w2, caller, Bal(w2, caller) - amt) EXCEPT !.supply = @ - amt, !.burnt = @ + amt]
+                            ELSE IF o.args[1] = caller \/ amt = 0 THEN w2
+                            ELSE Credit(SetBal(w2, caller, Bal(w2, caller) - amt), o.args[1], amt)
+                 logTo == IF o.method = "burn" THEN "zero" ELSE o.args[1]
+                 w3 == [moved EXCEPT !.logs = Append(@, [addr |-> pc, n |-> 3])]
+             IN IF out.ch # <<>> THEN Res(w, "ok", j, FALSE)
+                ELSE IF out.st = "ok" THEN (IF enough THEN ExecOps(w3, fc, ops, i + 1, outs, j + 1) ELSE Res(w, "ok", j, FALSE))
+                ELSE IF out.st = "oog" \/ ~enough THEN ExecOps(w, fc, ops, i + 1, outs, j + 1)      \* failed call: back to the snapshot
+                ELSE Res(w, "ok", j, FALSE)                                                           \* it had to succeed
       [] OTHER -> Res(w, "ok", j, FALSE)
 
 (***************************************************************************)
